@@ -32,6 +32,16 @@ def allocTable (h : Heap) (fixedLoc : Bool) (alloc cap : Nat) : Heap × Option (
     | (h', some s) => (h', some (some s))
     | (h', none) => (h', none)
 
+/-- a data block of `units` and (for lists with a VaryingSize parameter) an offset table for `cap` elements,
+    both from allocator `alloc`; when the second allocation throws the first block is returned (RAII) -/
+def allocPair (h : Heap) (c : ACfg) (fixedLoc : Bool) (units unit alloc cap : Nat) : Heap × Option (Ptr × Option Nat) :=
+  match Ptr.make h units unit alloc with
+  | (h1, none) => (h1, none)
+  | (h1, some p) =>
+    match allocTable h1 fixedLoc alloc cap with
+    | (h2, none) => (p.dealloc h2 c unit, none)
+    | (h2, some t) => (h2, some (p, t))
+
 /-- locator of a vector that received the contents of `src` (relocating locator constructors) -/
 def Loc.relocated (src : Loc) (junk : Nat → Nat) : Loc :=
   { src with slots := fun k => if k < src.size then src.slots k else junk k }
@@ -39,12 +49,9 @@ def Loc.relocated (src : Loc) (junk : Nat → Nat) : Loc :=
 /-- `BasicContiguousVector(max_element_count, varying_size_bytes, fixed_sizes, allocator)` -/
 def World.new (w : World) (k : Nat) (ps : List Param) (fs : List Nat) (cap bytes alloc : Nat) : World :=
   let v0 := Vec.new ps fs cap bytes w.junk
-  match Ptr.make w.heap v0.units v0.S alloc with
+  match allocPair w.heap w.acfg v0.fixedLoc v0.units v0.S alloc cap with
   | (h1, none) => { w with heap := h1, threw := true }
-  | (h1, some p) =>
-    match allocTable h1 v0.fixedLoc alloc cap with
-    | (h2, none) => { w with heap := p.dealloc h2 w.acfg v0.S, threw := true }
-    | (h2, some t) => { (w.set k (some { (v0.setPtr p) with tbl := t })) with heap := h2, threw := false }
+  | (h1, some (p, t)) => { (w.set k (some { (v0.setPtr p) with tbl := t })) with heap := h1, threw := false }
 
 /-- `reserve` / `grow` -/
 def World.reserve (w : World) (k n b : Nat) : World :=
@@ -53,14 +60,11 @@ def World.reserve (w : World) (k n b : Nat) : World :=
   | some v =>
     if v.cap < n then
       let v' := v.reserve n b w.junk
-      match Ptr.make w.heap v'.units v.S v.alloc with
+      match allocPair w.heap w.acfg v.fixedLoc v'.units v.S v.alloc n with
       | (h1, none) => { w with heap := h1, threw := true }
-      | (h1, some p) =>
-        match allocTable h1 v.fixedLoc v.alloc n with
-        | (h2, none) => { w with heap := p.dealloc h2 w.acfg v.S, threw := true }
-        | (h2, some t) =>
-          let (h3, p', _) := v.ptr.reset h2 w.acfg v.S p
-          { (w.set k (some { (v'.setPtr p') with tbl := t })) with heap := h3, threw := false }
+      | (h1, some (p, t)) =>
+        let r := v.ptr.reset h1 w.acfg v.S p
+        { (w.set k (some { (v'.setPtr r.2.1) with tbl := t })) with heap := r.1, threw := false }
     else { w with threw := false }
 
 /-- copy construction: `d` becomes a copy of `s` -/
@@ -68,14 +72,11 @@ def World.copy (w : World) (s d : Nat) : World :=
   match w.vecs s with
   | none => w
   | some vs =>
-    match Ptr.copy w.heap vs.S vs.ptr with
+    match allocPair w.heap w.acfg vs.fixedLoc vs.units vs.S (socc vs.alloc) vs.cap with
     | (h1, none) => { w with heap := h1, threw := true }
-    | (h1, some p) =>
-      match allocTable h1 vs.fixedLoc p.alloc vs.cap with
-      | (h2, none) => { w with heap := p.dealloc h2 w.acfg vs.S, threw := true }
-      | (h2, some t) =>
-        let vd : Vec := { (vs.setPtr p) with tbl := t, loc := vs.loc.relocated w.junk }
-        { (w.set d (some vd)) with heap := h2, threw := false }
+    | (h1, some (p, t)) =>
+      let vd : Vec := { (vs.setPtr p) with tbl := t, loc := vs.loc.relocated w.junk }
+      { (w.set d (some vd)) with heap := h1, threw := false }
 
 /-- the state a vector is left in by move construction / stealing -/
 def Vec.movedFrom (v : Vec) : Vec :=
@@ -118,16 +119,13 @@ def World.moveAssign (w : World) (s d : Nat) : World :=
       let vd' : Vec := { (vs.setPtr p) with poison := vd.poison || vs.poison }
       { ((w.set d (some vd')).set s (some vs.movedFrom)) with heap := h1, threw := false }
     else if vs.bytes > vd.bytes then
-      match Ptr.make w.heap vs.units vd.S vd.alloc with
+      match allocPair w.heap w.acfg vd.fixedLoc vs.units vd.S vd.alloc vs.cap with
       | (h1, none) => { w with heap := h1, threw := true }
-      | (h1, some np) =>
-        match allocTable h1 vd.fixedLoc vd.alloc vs.cap with
-        | (h2, none) => { w with heap := np.dealloc h2 w.acfg vd.S, threw := true }
-        | (h2, some t) =>
-          let (h3, p, _) := vd.ptr.moveAssign h2 w.acfg vd.S np
-          let vd' : Vec := { (vd.setPtr p) with tbl := t, cap := vs.cap, fs := vs.fs, mem := vs.mem, loc := vs.loc.relocated w.junk }
-          let vs' : Vec := { vs with mem := vs.mem.map (fun r => { r with e := movedValues vs.ps r.e }) }
-          { ((w.set d (some vd')).set s (some vs')) with heap := h3, threw := false }
+      | (h2, some (np, t)) =>
+        let r := vd.ptr.moveAssign h2 w.acfg vd.S np
+        let vd' : Vec := { (vd.setPtr r.2.1) with tbl := t, cap := vs.cap, fs := vs.fs, mem := vs.mem, loc := vs.loc.relocated w.junk }
+        let vs' : Vec := { vs with mem := vs.mem.map (fun r => { r with e := movedValues vs.ps r.e }) }
+        { ((w.set d (some vd')).set s (some vs')) with heap := r.1, threw := false }
     else
       match allocTable w.heap vd.fixedLoc vd.alloc vs.cap with
       | (h2, none) => { w with heap := h2, threw := true }
